@@ -188,10 +188,13 @@ class Explorer:
 
     def int_value(self, expr, lo: int, hi: int) -> int:
         """concretise an integer term by forking over [lo, hi]"""
-        for k in range(lo, hi):
-            if self.branch(expr == k):
-                return k
-        return hi
+        while lo < hi:
+            mid = (lo + hi) // 2
+            if self.branch(expr <= mid):
+                hi = mid
+            else:
+                lo = mid + 1
+        return lo
 
     def eval(self, expr):
         return self.get_model().eval(expr, model_completion=True)
